@@ -12,7 +12,7 @@ Driver for the unique-constraint model (C11).  Requests (one per line):
   pop  := - | seed(;seed)*        seed := <labels>:<props>:<0|1 stub>
   ops  := op(;op)*
   op   := c:<l>.<key> | n:<labels>:<props> | s:<h>.<key>.<val> | r:<h>.<key> | d:<h>
-        | a:<h>.<l> | u:<h>.<l>
+        | a:<h>.<l> | u:<h>.<l> | z:<tag>   (z = DROP INDEX / CREATE INDEX on a pair: no effect on constraints)
   labels := _ | digits (one digit per label)       props := _ | <key>=<val>(+<key>=<val>)*
   val  := i<int> | f<int> | s<nat> | n (null)
   obs  := <ok 0|1>|<nodes>|<cons>|<next>
@@ -71,6 +71,7 @@ def parseOp? (s : String) : Option Op :=
   | ["u", a] => match a.splitOn "." with
       | [h, l] => do pure (.removeLabel (← h.toNat?) (← l.toNat?))
       | _ => none
+  | ["z", t] => do pure (.noop (← t.toNat?))
   | _ => none
 
 def parseOps? (s : String) : Option (List Op) := (s.splitOn ";").mapM parseOp?
